@@ -54,6 +54,12 @@ def gen(tier, seed):
                 cases.append(dict(mk(), k="generic", op=["set", p - t]))
             if rnd.random() < 0.2:
                 cases.append(dict(mk(), k="generic", op=["dec", rnd.choice((0, -2, p + 1)), rnd.choice(("default", "none"))]))
+    # high degrees / many steps at once on Bezier curves (binomial-coefficient territory)
+    for (p, t, form) in ([(7, 1, "inc"), (8, 1, "set"), (1, 7, "set"), (2, 8, "inc")] if tier == "quick" else
+                         [(7, 1, "inc"), (8, 1, "set"), (1, 7, "set"), (2, 8, "inc"), (10, 1, "inc"), (3, 10, "set"), (9, 2, "inc")]):
+        U = [F(-1)] * (p + 1) + [F(3, 2)] * (p + 1)
+        cases.append({"U": fsl(U), "p": p, "scalar": True, "P": pts_json(rand_points(rnd, p + 1, 1)), "W": None,
+                      "kind": "bezier-high", "mults": [], "k": "inc", "op": ["inc", t] if form == "inc" else ["set", p + t]})
     return cases
 
 
